@@ -735,6 +735,7 @@ func miscRules(c *Ctx, a *flAgg) {
 			}
 			return 0, false
 		}
+		failNonZero := false
 		accepts := func(L int64) (acc, und bool) {
 			// the accumulation loop runs L times: its control is decided too
 			mv := L
@@ -770,6 +771,11 @@ func miscRules(c *Ctx, a *flAgg) {
 				}
 				n++
 				if v, isC := p.Results[1].boolConst(); isC && !v {
+					// a refusal carries the value 0: callers that ignore the flag
+					// (sleep minutes) rely on it
+					if z, isZ := p.Results[0].intConst(); !isZ || z != 0 {
+						failNonZero = true
+					}
 					continue
 				}
 				acc = true
@@ -800,6 +806,11 @@ func miscRules(c *Ctx, a *flAgg) {
 			if !acc && want {
 				wrongLow = append(wrongLow, L)
 			}
+		}
+		if failNonZero {
+			a.bad("PARSE-atou", "atou/refusal-value", "a refused number is returned with a value other than 0: a caller that ignores the flag (the sleep minutes of a goroutine header) takes that value", f.Pos())
+		} else {
+			a.ok("PARSE-atou", "atou/refusal-value", "a refused number comes with the value 0", f.Pos())
 		}
 		switch {
 		case und:
